@@ -159,3 +159,15 @@ prop(
     floors=[dict(stage="parse", key="parse_runs", min=100_000), dict(stage="parse", key="runs_with_injected_read_error", min=5_000), dict(stage="storage", key="add_sequences", min=50_000)],
     assumptions=["lines shorter than 64 KiB (bufio.Scanner's documented limit)", "case-insensitivity is exercised on letters where ToLower, EqualFold and ASCII folding agree (ASCII, ü/Ü)"],
 )
+
+prop(
+    "C01",
+    "totality monitor: every exported text/bytes/net.IP/netip-consuming entry point (35 groups for strings, 8 for typed values; the list is in the evidence notes) is called on every generated input with recover(); each returned error is "
+    "formatted and unwrapped; the current input is kept in a crash-surviving mmap cursor so that process-fatal errors (checkptr, stack exhaustion) yield the input; a watchdog restates 'never loops without bound' as bounded progress "
+    "(10 s in the workload, confirmed by a 60 s solo re-run). Inputs: the shared name/ARPA families, hosts lines, URL texts, address alphabets, every rune of every fold orbit with more than two members, duration texts, runs of one token "
+    "up to 70 000 bytes, the repository's own table rows; net.IP of every length 0..33 x masks of every length 0..20. Evaluations = entry-point calls; non-trivial = non-empty input (enumerations distinct by construction)",
+    [st("names", "c01", "TestNames", checkptr=True, timeout_q=900, timeout_t=3000), st("texts", "c01", "TestTexts", checkptr=True, timeout_q=900, timeout_t=3000), st("typed", "c01", "TestTyped", checkptr=True, timeout_q=600, timeout_t=2400)],
+    floors=[dict(stage="names", key="inputs", min=1_000_000), dict(stage="texts", key="inputs", min=1_000_000), dict(stage="typed", key="typed_inputs", min=50_000)],
+    assumptions=["documented 'must' preconditions are honoured (valid address family, non-nil *url.URL, syntactically valid JSON for UnmarshalJSON, valid domain for Subdomains); 'should' preconditions are not",
+                 "that a call never diverges is out of reach of runtime monitoring; it is restated as bounded progress"],
+)
